@@ -84,7 +84,35 @@ func recovered(o *Obs) {
 func (o *Obs) deliver(m *wrapperspb.StringValue) {
 	b, _ := proto.MarshalOptions{Deterministic: true}.Marshal(m)
 	o.Delivered = append(o.Delivered, b)
-	o.DeliveredS = append(o.DeliveredS, m.Value)
+	o.DeliveredS = append(o.DeliveredS, abbr(m.Value))
+}
+
+// abbr keeps reports readable for large messages: head, length and a hash.
+func abbr(s string) string {
+	if len(s) <= 64 {
+		return s
+	}
+	return fmt.Sprintf("%s...[%d bytes, fnv %016x]", s[:12], len(s), fnv64([]byte(s)))
+}
+
+// firstDiff describes where two strings start to differ.
+func firstDiff(got, want string) string {
+	n := len(got)
+	if len(want) < n {
+		n = len(want)
+	}
+	i := 0
+	for i < n && got[i] == want[i] {
+		i++
+	}
+	if i == n {
+		return fmt.Sprintf("lengths %d vs %d, equal up to the shorter", len(got), len(want))
+	}
+	j := i
+	for j < n && got[j] != want[j] {
+		j++
+	}
+	return fmt.Sprintf("lengths %d vs %d, first difference at character %d: got %q want %q, differing run of %d", len(got), len(want), i, got[i], want[i], j-i)
 }
 
 func (o *Obs) final(err error) {
